@@ -456,7 +456,7 @@ def check_c04(ctx):
 def check_c12(ctx):
     mods = ["WalrusVerif.Props.C12"]
     if ctx.replay:
-        do_replay(ctx, mods, ["C12", "C06", "C15"])
+        do_replay(ctx, mods, ["C12", "C06", "C15"])  # noqa
     engine_check(ctx, mods,
                  [("reclaim", 220, 4000)],
                  ["C12", "C06", "C15"],
@@ -611,3 +611,19 @@ def check_c11(ctx):
                        "one damage per directory; the damage model is the listed mutation kinds",
                        "payload identity: a returned payload must equal (or be a suffix of, for offset reads) a payload appended to that topic"]
     finish(ctx, trusted_base=TRUSTED + ["rkyv's validator (check_archived_root) is trusted to implement the position checks modelled in Model/Header.lean"])
+
+
+def check_c13(ctx):
+    mods = ["WalrusVerif.Props.C13"]
+    if ctx.replay:
+        do_replay(ctx, mods, ["C13"])
+    engine_check(ctx, mods,
+                 [("twoinst", 260, 4000)],
+                 ["C13", "C06", "C15", "C12"],
+                 "two instances in ONE process on two data directories (operations prefixed with `B` address the second), both using the same topic names: "
+                 "every append, batch, read (both APIs, peeks), count is addressed to A or B at random; tracker tuples and directory listings of both directories "
+                 "and the reclaimer's pass are observed after ~10% of the operations; clean reopen of both, process restart; small geometry (4 blocks per file, so "
+                 "files of both instances become fully allocated and reclaimable); each instance has its own FIFO/count oracle (its stream, order, counts must be "
+                 "those of its own appends and reads only, also after the restart); non-trivial = distinct program that rotated a block, reopened or had a rejected operation",
+                 ENGINE_ASSUME + ["the two instances are driven from one thread (interleaving at operation granularity)",
+                                  "different data directories; the 'keys that sanitize differently' half of the premise is C14's theorem"])
